@@ -53,6 +53,7 @@ static Plan c08_gen(uint64_t seed, int tier, uint64_t index) {
         if (!aead && r.chance(1, 4)) { slen = (int64_t) ((r.chance(2, 3) ? 12 : 16) + 16 * r.below(5)); }
         p.ops.push_back(Op("send", (int64_t) r.below(2), slen, (int64_t) r.below(2)));
     }
+    if (ns && r.chance(1, 3)) { int vd = (int) r.below(2); p.ops.push_back(Op("sendq", vd, (int64_t) (1 + r.below(3000)))); p.ops.push_back(Op("deliverq", 1 - vd)); }
     p.ops.push_back(Op("pump"));
     if (r.chance(1, 3)) { p.ops.push_back(Op("close", (int64_t) r.below(2))); p.ops.push_back(Op("pump")); }
     if (ver >= 3 && r.chance(1, 2)) { p.ops.push_back(Op("timer", (int64_t) r.below(2))); p.ops.push_back(Op("timer", (int64_t) r.below(2))); p.ops.push_back(Op("pump")); }
@@ -139,6 +140,29 @@ static std::vector<Plan> c08_fixed(int tier) {
                         p.ops.push_back(Op("hs"));
                         v.push_back(p);
                     }
+                }
+            }
+        }
+    }
+    // a record that makes the receiver answer on its own (bad MAC / tag, garbage, unexpected message) arrives while the receiver still has
+    // unsent application output of every size around its buffer capacity pending
+    for (int ver = 0; ver < 5; ver++) {
+        static const int PEND[] = { 16, 1200, 1400, 1440, 1460, 1480, 1500, 2900, 4000, 16000 };
+        for (int pi = 0; pi < 10; pi++) {
+            for (int victim = 0; victim < 2; victim++) {
+                for (int how = 0; how < 3; how++) {
+                    Plan p; p.seed = 82000 + (uint64_t) (((ver * 10 + pi) * 2 + victim) * 3 + how);
+                    p.cfg["ver"] = ver;
+                    if (ver == 2) { p.cfg["suite"] = TLS_AES_128_GCM_SHA256; p.cfg["sid_kind"] = KK_EC256; }
+                    else { p.cfg["suite"] = (pi & 1) ? TLS_ECDHE_RSA_WITH_AES_128_GCM_SHA256 : TLS_RSA_WITH_AES_128_CBC_SHA; if (ver == 0 || ver == 3) { p.cfg["suite"] = TLS_RSA_WITH_AES_128_CBC_SHA; } }
+                    p.ops.push_back(Op("hs"));
+                    p.ops.push_back(Op("send", victim, 30)); p.ops.push_back(Op("send", 1 - victim, 30)); p.ops.push_back(Op("pump"));
+                    if (how == 0) { p.ops.push_back(Op("arm", 1 - victim, 77, 9, 0, "flipbit")); p.ops.push_back(Op("send", 1 - victim, 40)); }
+                    else { p.ops.push_back(Op("inject", 1 - victim, how == 1 ? 3 : 5, 7, 2, how == 1 ? "garbage" : "hsmsg")); }
+                    p.ops.push_back(Op("sendq", victim, PEND[pi])); if (PEND[pi] > 1000 && ver < 3) { p.ops.push_back(Op("sendq", victim, 37)); }
+                    p.ops.push_back(Op("deliverq", 1 - victim));
+                    p.ops.push_back(Op("pump"));
+                    v.push_back(p);
                 }
             }
         }
